@@ -560,9 +560,23 @@ def m_asarray(x, dtype=None):
     return SymArray(list(x), dtype)
 
 
-def m_isin(a, b):
-    bs = list(b)
-    return SymArray([R.compare(ast.In(), x, bs) if (is_sym(x) or any(is_sym(y) for y in bs)) else (x in bs) for x in a.e], bool)
+def m_isin(a, b, assume_unique=False, invert=False, **kw):
+    if kw:
+        raise Unsupported(f"isin({sorted(kw)})")
+    scalar = not getattr(a, "_symarray", False) and not isinstance(a, (list, tuple, numpy.ndarray))
+    elems = [a] if scalar else (a.e if isinstance(a, SymArray) else list(a))
+    if isinstance(b, (set, frozenset, dict)) or type(b).__name__ == "SymSet":
+        # numpy.asarray(a set) is a 0-d object array: no element of `a` ever equals it (a known numpy pitfall)
+        res = [bool(invert)] * len(elems)
+    else:
+        bs = list(b.e) if isinstance(b, SymArray) else (list(b) if isinstance(b, (list, tuple, numpy.ndarray)) else [b])
+        res = []
+        for x in elems:
+            r = R.compare(ast.In(), x, bs) if (is_sym(x) or any(is_sym(y) for y in bs)) else (x in bs)
+            if invert:
+                r = Sym(z3.Not(truth(r)), bool) if is_sym(r) else (not r)
+            res.append(r)
+    return res[0] if scalar else SymArray(res, bool)
 
 
 class UniqueRes:
